@@ -64,7 +64,9 @@ func (h *chanHelper) await(site string) {
 		for k := 0; k < 64 && h.done.Load() == 0; k++ {
 			runtime.Gosched()
 		}
-		if multiP && h.done.Load() == 0 {
+		// with several Ps the helper needs real time to be woken and to finish
+		// (the workers run with one P: the Gosched calls above are enough there)
+		for k := 0; multiP && k < 100 && h.done.Load() == 0; k++ {
 			time.Sleep(200 * time.Microsecond)
 		}
 	}
@@ -197,4 +199,33 @@ func (s *sim) unsupportedStall() bool {
 func unsupported(what string) {
 	os.Stderr.WriteString("verif: simulator limitation reached: " + what + "\n")
 	os.Exit(2)
+}
+
+// SelectOrder decides in which order the cases of a rewritten select are
+// attempted: source order canonically, a tape-chosen permutation when the run
+// explores interleavings. The Go runtime picks uniformly among the ready cases;
+// trying them in a uniformly drawn order and taking the first ready one is the
+// same distribution, with the choice on the tape.
+//
+//go:norace
+func SelectOrder(n int, site string) []int {
+	o := make([]int, n)
+	for i := range o {
+		o[i] = i
+	}
+	s := cur
+	if s == nil || n < 2 || s.cfg.PreemptDen == 0 {
+		return o
+	}
+	var h int64
+	for i := n - 1; i >= 1; i-- {
+		j := i - int(s.draw(uint32(i+1)))
+		o[i], o[j] = o[j], o[i]
+		h = h*31 + int64(j)
+	}
+	if h != 0 {
+		s.fault("select.order")
+		s.event(site, "select.order", h)
+	}
+	return o
 }
